@@ -1,6 +1,8 @@
 (* Proofs/C13.v — lemmas and main proofs for C13 (sliding windows are row-local). *)
 From Coq Require Import ZArith List Bool Lia Arith.
-From BNP Require Import Base.Prims Base.PrimsFacts Model.C13.
+From BNP Require Import Base.Prims.
+From BNP Require Import Base.PrimsFacts.
+From BNP Require Import Model.C13.
 Import ListNotations.
 Open Scope Z_scope.
 
@@ -598,4 +600,75 @@ Proof.
   rewrite <- (Z2Nat.id k) in * by lia.
   destruct (le_value_digits n (Z.to_nat k) Hn h Hh) as [E1 [E2 E3]].
   repeat split; [exact E1| |exact E3]. unfold len. rewrite E2. reflexivity.
+Qed.
+
+(* ------------------------------------------------------------------ the statements exported to Props/C13.v *)
+Lemma one_le_of_two k : 2 <= k -> 1 <= k. Proof. lia. Qed.
+
+Lemma keeps_fixed_len {A} (l : list A) : 1 <= len l -> keeps_windows (stop_fixed (len l)) (length l).
+Proof. intros H. generalize (keeps_fixed (len l) H). unfold len. rewrite Nat2Z.id. exact (fun K => K). Qed.
+Lemma keeps_pinned_len {A} (l : list A) : 2 <= len l -> keeps_windows (stop_pinned (len l)) (length l).
+Proof. intros H. generalize (keeps_pinned (len l) H). unfold len. rewrite Nat2Z.id. exact (fun K => K). Qed.
+
+Theorem rolling_window1_refuted :
+  (forall (B : Type) (f : list Z -> B) rows, rolling_with stop_pinned f 1 rows = map (fun _ => []) rows)
+  /\ exists rows, rolling_with stop_pinned (le_value 4) 1 rows <> per_row (le_value 4) 1 rows.
+Proof. split; [exact (fun B => @rolling_pinned_w1_empty B)|exists [[2]]; discriminate]. Qed.
+
+Theorem kmer_code_le n win :
+  hash_generic n (len win) win = le_value n win /\ encode_kmer n (len win) win = le_value n win.
+Proof. split; apply hash_generic_le. Qed.
+
+Theorem kmer_text_roundtrip (alpha : list Z) n win : 2 <= n -> letters_ok n win ->
+  decode_kmer n (len win) (encode_kmer n (len win) win) = win
+  /\ to_string alpha n (len win) (encode_kmer n (len win) win) = text_of alpha win.
+Proof. intros Hn H. split; [apply decode_encode|apply to_string_encode]; assumption. Qed.
+
+Theorem get_kmers_fixed n k rows : 1 <= k -> kmer_domain n k rows ->
+  get_kmers_with stop_fixed n k rows = spec_kmers n (Z.to_nat k) rows.
+Proof. intros Hk Hd. apply get_kmers_row_local; [exact Hk|apply keeps_fixed; exact Hk|exact Hd]. Qed.
+
+Theorem get_kmers_pinned n k rows : 2 <= k -> kmer_domain n k rows ->
+  get_kmers_with stop_pinned n k rows = spec_kmers n (Z.to_nat k) rows.
+Proof. intros Hk Hd. apply get_kmers_row_local; [lia|apply keeps_pinned; exact Hk|exact Hd]. Qed.
+
+Theorem get_kmers_window1_refuted :
+  (forall n rows, get_kmers_with stop_pinned n 1 rows = map (fun _ => []) rows)
+  /\ exists n rows, get_kmers_with stop_pinned n 1 rows <> spec_kmers n 1 rows.
+Proof. split; [exact get_kmers_pinned_w1|exists 4, [[0; 1; 3]; [2]]; discriminate]. Qed.
+
+Theorem minimizers_fixed n k W rows : 1 <= k -> k <= W -> W <= len (concat rows) ->
+  get_minimizers_with stop_fixed n k W rows = Some (spec_minimizers n (Z.to_nat k) (Z.to_nat W) rows).
+Proof. intros. apply minimizers_row_local; try assumption; apply keeps_fixed; lia. Qed.
+
+Theorem minimizers_pinned n k W rows : 2 <= k -> k <= W -> W <= len (concat rows) ->
+  get_minimizers_with stop_pinned n k W rows = Some (spec_minimizers n (Z.to_nat k) (Z.to_nat W) rows).
+Proof. intros. apply minimizers_row_local; try assumption; try lia; apply keeps_pinned; lia. Qed.
+
+Theorem match_string_fixed pat rows : 1 <= len pat -> match_string_with stop_fixed pat rows = spec_match pat rows.
+Proof. intros Hp. apply match_string_row_local; [exact Hp|apply keeps_fixed_len; exact Hp]. Qed.
+
+Theorem match_string_pinned pat rows : 2 <= len pat -> match_string_with stop_pinned pat rows = spec_match pat rows.
+Proof. intros Hp. apply match_string_row_local; [lia|apply keeps_pinned_len; exact Hp]. Qed.
+
+Theorem motif_fixed cols rows : 1 <= len cols -> get_motif_scores_with stop_fixed cols rows = spec_motif cols rows.
+Proof. intros Hc. apply motif_row_local; [exact Hc|apply keeps_fixed_len; exact Hc]. Qed.
+
+Theorem motif_pinned cols rows : 2 <= len cols -> get_motif_scores_with stop_pinned cols rows = spec_motif cols rows.
+Proof. intros Hc. apply motif_row_local; [lia|apply keeps_pinned_len; exact Hc]. Qed.
+
+Theorem count_kmers_fixed n k rows : 1 <= k -> kmer_domain n k rows ->
+  count_kmers_flat_with stop_fixed n k rows = bincount (n ^ k) (concat (spec_kmers n (Z.to_nat k) rows))
+  /\ count_kmers_rows_with stop_fixed n k rows = map (bincount (n ^ k)) (spec_kmers n (Z.to_nat k) rows).
+Proof.
+  intros Hk Hd. split; [apply count_flat_row_local|apply count_rows_row_local];
+    try assumption; apply keeps_fixed; exact Hk.
+Qed.
+
+Theorem count_kmers_pinned n k rows : 2 <= k -> kmer_domain n k rows ->
+  count_kmers_flat_with stop_pinned n k rows = bincount (n ^ k) (concat (spec_kmers n (Z.to_nat k) rows))
+  /\ count_kmers_rows_with stop_pinned n k rows = map (bincount (n ^ k)) (spec_kmers n (Z.to_nat k) rows).
+Proof.
+  intros Hk Hd. split; [apply count_flat_row_local|apply count_rows_row_local];
+    try assumption; try lia; apply keeps_pinned; exact Hk.
 Qed.
